@@ -295,6 +295,11 @@ func isolationMatrix() []isoCell {
 	// ---- topics ------------------------------------------------------------------------------------------------
 	add("topic/publish", elemsBundle(&jElem{Topic: &jTopic{Name: "Thing", Type: "publish", Messages: []*jTopicMsg{{Name: "PostThing", Fields: []*jF{fld("thingId", tKeyF("id62"))}}}}}))
 	add("topic/publish-two", elemsBundle(&jElem{Topic: &jTopic{Name: "Thing", Type: "publish", Messages: []*jTopicMsg{{Name: "PostThing", Fields: []*jF{fld("thingId", tKeyF("id62"))}}, {Name: "DropThing"}}}}))
+	// names with digits and acronyms: what is declared is what every later stage must look for
+	add("topic/publish-unusual-names", elemsBundle(&jElem{Topic: &jTopic{Name: "Auth", Type: "publish", Messages: []*jTopicMsg{{Name: "Verify2fa", Fields: []*jF{fld("code", tScalar(kString))}}, {Name: "Send3dModel"}, {Name: "PushHTTPStatus"}}}}))
+	add("service/unusual-names", elemsBundle(&jElem{Service: &jService{Name: "Auth2fa", BasePath: "/iso/v1", Methods: []*jMethod{
+		{Name: "Verify2fa", HTTPMethod: "POST", Path: "/verify", Req: []*jF{fld("code", tScalar(kString))}, HasRes: true, Res: []*jF{fld("ok", tScalar(kBool))}},
+		{Name: "GetHTTPStatus", HTTPMethod: "GET", Path: "/status/:id", Req: []*jF{fld("id", tKeyF("id62"))}, HasRes: true, Res: []*jF{fld("code", tInt("INT32"))}}}}}))
 	add("topic/reqres", elemsBundle(&jElem{Topic: &jTopic{Name: "Thing", Type: "reqres", Request: &jTopicMsg{Fields: []*jF{fld("thingId", tKeyF("id62"))}}, Reply: &jTopicMsg{Fields: []*jF{fld("name", tScalar(kString))}}}}))
 	add("topic/upsert", elemsBundle(&jElem{Topic: &jTopic{Name: "Thing", Type: "upsert", Messages: []*jTopicMsg{{Name: "UpsertThing", Fields: []*jF{fld("thingId", tKeyF("id62"))}}}}}))
 
